@@ -204,7 +204,7 @@ def load_exec(task):
         with open(path, "w") as fh:
             fh.write(task["text"])
         sc = {"many": task["many"], "sel": "match", "frames": task["frames"], "cutWarns": task["cutwarns"],
-              "discardAfter": task["discard"]}
+              "discardAfter": max(task["discard"], 0), "neverStarted": task["discard"] < 0}
         tr = Tracer(only=path)
         out = None
         n = 0
@@ -214,7 +214,11 @@ def load_exec(task):
                 try:
                     if task["many"]:
                         gen = api.load_many(path)
-                        for data in gen:
+                        if task["discard"] < 0:   # dropped before the first frame is requested
+                            gen.close()
+                            del gen
+                            out = "discarded"
+                        for data in ([] if out else gen):
                             n += 1
                             same = n <= len(task["singles"]) and digest(data) == task["singles"][n - 1]
                             tr.log({"ev": "yield", "i": n, "same": bool(same), "valid": not consistent(data)})
@@ -309,6 +313,7 @@ def build_sequence(args):
                           "singles": singles if sing is None else sing, "note": note})
 
         add(True, full, ["ok"] * n, "full")
+        add(True, full, ["ok"] * n, "iterator dropped before the first frame", discard=-1)
         add(False, full, ["ok"] * n, "load_one of a multi-frame file")
         if fmt != "gromacs":  # a blank line is a legal GRO title line, so trailing blank lines are not well-formed GRO
             add(True, full + "\n\n", ["ok"] * n, "trailing blank lines")
